@@ -1,5 +1,6 @@
 // lcv: harness driver.  lcv <prop> gen -seed S -n N -tier T -out F
-//                       lcv <prop> replay -in inputs.json -out F
+//
+//	lcv <prop> replay -in inputs.json -out F
 package main
 
 import (
@@ -24,6 +25,10 @@ func die(f string, a ...interface{}) {
 func main() {
 	if len(os.Args) >= 2 && os.Args[1] == "rk-child" {
 		rk.ChildMain()
+		return
+	}
+	if len(os.Args) >= 2 && os.Args[1] == "live-user" {
+		lcw.LiveUserMain(os.Args[2:])
 		return
 	}
 	if len(os.Args) >= 2 && os.Args[1] == "kernel-helper" {
